@@ -76,6 +76,7 @@ type verifC22Rec struct {
 	RErr    string          `json:"rerr"`
 	Ranges  []verifC22Range `json:"ranges"`
 	Months  []int64         `json:"months"`
+	DstGap  bool            `json:"dstgap"` // some month of the table begins inside a gap of the local clock
 }
 
 const (
@@ -106,19 +107,26 @@ func verifC22ErrClass(err error) string {
 }
 
 // verifC22Months returns the month starts (in loc) from four months before lo to four after hi.
-func verifC22Months(lo, hi int64, loc *time.Location) []int64 {
+// gap reports whether some month of the table begins inside a gap of the local clock (00:00 of the
+// 1st does not exist: daylight saving or a change of the zone's offset at that instant, e.g.
+// America/Asuncion 2017-10-01, Europe/Moscow 1981-04-01, Asia/Kathmandu 1986-01-01): known finding.
+func verifC22Months(lo, hi int64, loc *time.Location) (out []int64, gap bool) {
 	t := time.Unix(lo, 0).In(loc)
 	y, m := t.Year(), int(t.Month())-4
-	out := []int64{}
+	out = []int64{}
 	after := 0
 	for i := 0; after < 4; i++ {
-		ts := time.Date(y, time.Month(m+i), 1, 0, 0, 0, 0, loc).Unix()
+		d := time.Date(y, time.Month(m+i), 1, 0, 0, 0, 0, loc)
+		if d.Day() != 1 || d.Hour() != 0 || d.Minute() != 0 || d.Second() != 0 {
+			gap = true
+		}
+		ts := d.Unix()
 		out = append(out, ts)
 		if ts > hi {
 			after++
 		}
 	}
-	return out
+	return out, gap
 }
 
 func verifC22Call(id int, a verifC22Args) verifC22Rec {
@@ -171,7 +179,7 @@ func verifC22Call(id int, a verifC22Args) verifC22Rec {
 		}
 		lo = min(lo, a.Start-r.MaxOff, a.Start-a.Off)
 		hi = max(hi, a.End-a.Off)
-		r.Months = verifC22Months(lo, hi, a.Loc)
+		r.Months, r.DstGap = verifC22Months(lo, hi, a.Loc)
 	}
 	return r
 }
@@ -649,7 +657,7 @@ func TestVerifC22Timescale(t *testing.T) {
 	perClass := verifkit.EnvInt("VERIF_PER_CLASS", 2)
 	zones := verifC22Zones(t)
 	rnd := verifkit.Rand(22)
-	var flagged, sample, monthoff []verifC22Rec
+	var flagged, sample, monthoff, dstgap []verifC22Rec
 	maxBig := verifkit.EnvInt("VERIF_MAX_BIG", 6) // axes of more than 1000 points handed to TLC
 	nbig := 0
 	nmonthoff := verifkit.EnvInt("VERIF_NMONTHOFF", 100)
@@ -664,6 +672,16 @@ func TestVerifC22Timescale(t *testing.T) {
 		res.Steps += len(r.Time)
 		cl := verifC22Class(&r)
 		res.Seen(cl)
+		if r.DstGap {
+			// a month of the range begins inside a gap of the local clock: known finding
+			if bad := verifC22Check(&r); bad != "" {
+				res.Count("dstgap_screen_"+bad, 1)
+				if len(dstgap) < 5 {
+					dstgap = append(dstgap, r)
+				}
+			}
+			return
+		}
 		if r.Step == verifC22Month && (r.MaxOff != 0 || r.Off != 0) {
 			// monthly step with a metric offset: known finding, validated apart (reduced contract)
 			if bad := verifC22Check(&r); bad != "" {
@@ -723,6 +741,7 @@ func TestVerifC22Timescale(t *testing.T) {
 		res.Note("%s: screen=%q time=%v lods=%v startx=%d view=%d..%d", a.Gen, verifC22Check(&r), r.Time, r.LODs, r.StartX, r.VStartX, r.VEndX)
 		out = append(out, r)
 	}
+	out = append(out, dstgap...)
 	nfirst := len(out) + len(monthoff)
 	out = append(out, monthoff...)
 	out = append(out, sample...)
